@@ -42,6 +42,9 @@ def impl_batch(case):
             if it.get("tsf"):
                 a = persist_rule(("tsf", k, True), lambda: LambdaTSF(lambda_=k, zero_indexed=True)).scf(prof, ValuationProfileElicitor(vp))
                 res["tsf"] = [int(x) for x in a]
+                # the simulated matrix the allocation was computed from (hypothesis of C16_tsf: A maximises the SIMULATED weight)
+                sim = persist_rule(("tsf", k, True), lambda: LambdaTSF(lambda_=k, zero_indexed=True)).get_simulated_cardinal_profile(prof, ValuationProfileElicitor(vp))
+                res["tsf_sim"] = [[fr(Fraction(float(x))) for x in row] for row in np.asarray(sim)]
             if it.get("nanvals"):
                 vpn = ValuationProfile.of(to_np(it["nanvals"]))
                 res["dist_nan"] = float(distortion(int(it["nan_choice"]), vpn))
@@ -139,7 +142,29 @@ def run_items(R, items):
         wa = res["karv"]["accept"]
         lines.append(" ".join(["distortion", str(m)] + [fr(s / tot) for s in sw] + [str(len(wa))] + [str(w - 1) for w in wa]))
         idx.append(i)
-    ans = dict(zip(idx, lean_query(lines)))
+    # hypothesis of C16_tsf on the real code: the returned allocation maximises the simulated weight (model's brute force optAssign, n <= 7)
+    hl, hidx = [], []
+    for i, (it, res) in enumerate(zip(items, flat)):
+        if isinstance(res, dict) and "tsf" in res and "tsf_sim" in res and len(it["P"]) <= 7 and sorted(res["tsf"]) == list(range(len(it["P"]))):
+            n = len(it["P"])
+            wt = [x for row in res["tsf_sim"] for x in row]
+            hl.append(" ".join(["assignopt", str(n)] + wt))
+            hl.append(" ".join(["assignval", str(n)] + wt + [str(c) for c in res["tsf"]]))
+            hidx.append(i)
+    allans = lean_query(lines + hl)
+    ans = dict(zip(idx, allans[:len(lines)]))
+    hans = allans[len(lines):]
+    for k2, i in enumerate(hidx):
+        opt, val = hans[2 * k2], hans[2 * k2 + 1]
+        R.count("tsf_allocation_vs_optimum_of_the_simulated_matrix")
+        ok = opt.startswith("ok ") and val.startswith("ok ")
+        if ok:
+            o, v = Fraction(opt.split()[1]), Fraction(val.split()[1])
+            ok = o - v <= Fraction(1, 10 ** 9) * max(1, abs(o))
+        if not ok:
+            R.corr_break("hypothesis of C16_tsf: the lambda-TSF allocation is a maximum-weight assignment of the simulated valuations (model's optAssign)",
+                         ENTRY + " LambdaTSF.scf", {"P": items[i]["P"], "vals": items[i]["vals"], "k_or_lambda": items[i]["k"], "seed": items[i]["seed"]},
+                         {"allocation": flat[i]["tsf"], "its_simulated_weight": val}, {"optimum_of_the_simulated_matrix": opt})
     for i, (it, res) in enumerate(zip(items, flat)):
         judge(R, it, res, {"dist": ans.get(i, "err")})
 
